@@ -14,6 +14,8 @@
 #include <cstdarg>
 
 #include "engines/libobs.h"
+#define MC_ALLOCFAULT_IMPL
+#include "mc/allocfault.h"
 #include "mc/harness.h"
 #include "ref/layout_rules.h"
 #include "ref/wire.h"
@@ -56,7 +58,8 @@ struct CaseSpec
     int junk = 0;          // input packets carry junk device/stream/sequence values
     int api = 0;           // 0 iterator-of-Packet, 1 single packet, 2 iterator-of-shared_ptr
     int pre = 0;           // earlier encode call on the SAME encoder: 0 none; same context, other version: 1 [small data], 2 [small status], 3 [segmenting data];
-                           // same version, [small data]: 4 larger max, 5 smaller max, 6 same context, 7 minimum above this call's maximum
+                           // same version, [small data]: 4 larger max, 5 smaller max, 6 same context, 7 minimum above this call's maximum;
+                           // same context, call aborted by the packet source: 8 after [small data], 9 after [segmenting data, small data]
     std::vector<PSpec> b;
 };
 
@@ -485,13 +488,61 @@ static void oracleC01(W& w, const CaseSpec& c, const Built& b, const std::vector
     }
 }
 
+// An input range whose element access fails at a given position: the environment answer "the caller's packet source threw" (or an
+// allocation failed) in the middle of an encode call. The aborted call returns nothing; the encoder must be usable afterwards.
+struct ThrowingIt
+{
+    using iterator_category = std::forward_iterator_tag;
+    using value_type = Packet;
+    using difference_type = std::ptrdiff_t;
+    using pointer = const Packet*;
+    using reference = const Packet&;
+    const Packet* base = nullptr;
+    size_t i = 0, throwAt = 0;
+    reference operator*() const
+    {
+        if (i == throwAt)
+            throw std::runtime_error("packet source failed");
+        return base[i];
+    }
+    pointer operator->() const { return &**this; }
+    ThrowingIt& operator++() { ++i; return *this; }
+    ThrowingIt operator++(int) { ThrowingIt t = *this; ++i; return t; }
+    bool operator==(const ThrowingIt& o) const { return i == o.i; }
+    bool operator!=(const ThrowingIt& o) const { return i != o.i; }
+};
+
 static void judge(W& w, const std::string& prop, const CaseSpec& c)
 {
     Built b = build(c);
     Encoder e;
     e.setDeviceId(c.dev);
     e.setStreamId(c.str);
-    if (c.pre)
+    if (c.pre >= 8)
+    {
+        // an earlier call with the same context that was ABORTED by an exception from the caller's packet source, after one small
+        // packet (kind 8) or after a segmented and a small packet (kind 9) had been put into frames: nothing of it may show up later
+        CaseSpec p0 = c;
+        p0.pre = 0;
+        p0.api = 0;
+        PSpec a, b2;
+        a.mt = 1; a.len = c.pre == 9 ? (uint32_t) (2 * (c.mx - 24) + 1) : 3; a.pat = 98;
+        b2.mt = 1; b2.len = 2; b2.pat = 97;
+        p0.b = {a, b2};
+        Built pb = build(p0);
+        const size_t at = c.pre == 9 ? 2 : 1;
+        ThrowingIt first{pb.packets.data(), 0, at}, last{pb.packets.data(), pb.packets.size() + 1, at};
+        try
+        {
+            e.encode(first, last, DataContext{p0.mn, p0.mx});
+            w.fail("aborted-call:no-exception", "the packet source threw, encode() returned normally");
+        }
+        catch (const std::runtime_error&)
+        {
+        }
+        w.add(mc::C_TRANS, 1);
+    }
+    else if (c.pre)
     {
         // an earlier call with the same context on the same encoder: what it leaves behind must not matter
         CaseSpec p0 = c;
@@ -697,7 +748,7 @@ static void runTask(W& w, const std::string& prop, const Domain& d, const Task& 
             exec();
             if (t.part == 'A' && (t.n <= 2 || d.thorough) && t.n <= 3)
             {
-                for (c.pre = 1; c.pre <= 7; ++c.pre)
+                for (c.pre = 1; c.pre <= 9; ++c.pre)
                     exec();
                 c.pre = 0;
             }
@@ -918,32 +969,9 @@ static CaseSpec encodeArg(int k)
     return c;
 }
 
-// An input range whose element access fails at a given position: the environment answer "the caller's packet source threw" (or an
-// allocation failed) in the middle of an encode call. The aborted call returns nothing; the encoder must be usable afterwards.
-struct ThrowingIt
-{
-    using iterator_category = std::forward_iterator_tag;
-    using value_type = Packet;
-    using difference_type = std::ptrdiff_t;
-    using pointer = const Packet*;
-    using reference = const Packet&;
-    const Packet* base = nullptr;
-    size_t i = 0, throwAt = 0;
-    reference operator*() const
-    {
-        if (i == throwAt)
-            throw std::runtime_error("packet source failed");
-        return base[i];
-    }
-    pointer operator->() const { return &**this; }
-    ThrowingIt& operator++() { ++i; return *this; }
-    ThrowingIt operator++(int) { ThrowingIt t = *this; ++i; return t; }
-    bool operator==(const ThrowingIt& o) const { return i == o.i; }
-    bool operator!=(const ThrowingIt& o) const { return i != o.i; }
-};
-
 struct HistState
 {
+    bool faultFired = false;   // op 'A': the call really made that many allocations
     Encoder enc;
     ref::CounterModel cm;
     uint16_t dev = 0;
@@ -979,6 +1007,28 @@ static std::vector<Bytes> applyOp(W& w, HistState& s, const EncOp& o, bool judge
             catch (const std::runtime_error&)
             {
             }
+            break;
+        }
+        case 'A':
+        {
+            // encode(E<arg & 0xFF>) in which allocation number (arg >> 8) fails: the call ends with std::bad_alloc
+            CaseSpec c = encodeArg(o.arg & 0xFF);
+            Built b = build(c);
+            DataContext ctx{c.mn, c.mx};
+            bool thrown = false;
+            mc::af::arm(o.arg >> 8);
+            try
+            {
+                auto fr = s.enc.encode(b.packets.begin(), b.packets.end(), ctx);
+                mc::af::disarm();
+            }
+            catch (const std::bad_alloc&)
+            {
+                thrown = true;
+            }
+            s.faultFired = mc::af::disarm();
+            if (s.faultFired && !thrown)
+                w.fail("aborted-call:allocation-failure-swallowed", "an allocation inside encode() failed, the call returned normally");
             break;
         }
         case 'E':
@@ -1406,6 +1456,46 @@ int main(int argc, char** argv)
                     w.add(mc::C_TRACES, 1);
                 }
                 w.add(mc::C_STATES, 1);
+            });
+        }
+        // fault injection at EVERY allocation: an earlier encode call in which the n-th allocation failed (memory exhaustion), for every n
+        // up to the number of allocations the call makes, alone and after / before another call
+        {
+            struct AT { const char* pre; int arg; const char* post; };
+            std::vector<AT> ats;
+            for (int arg : {0, 1, 2, 3, 5, 6, 12, 13, 14})
+                for (const char* pre : {"", "E1,", "E2,"})
+                    for (const char* post : {"", ",E0"})
+                        ats.push_back({pre, arg, post});
+            run.round("histories with an encode call aborted at its n-th allocation (every n) x all finals", ats.size(), [&, ats](W& w, uint64_t o) {
+                const AT& t = ats[o];
+                for (int n = 1; n < 200; ++n)
+                {
+                    std::string hist = fmt("%sA%x%s", t.pre, (n << 8) | t.arg, t.post);
+                    HistState s;
+                    W silent;
+                    silent.single = true;
+                    bool fired = false;
+                    for (auto& op : parseHist(hist))
+                    {
+                        applyOp(op.kind == 'A' ? w : silent, s, op, false);
+                        if (op.kind == 'A')
+                            fired = s.faultFired;
+                    }
+                    if (!fired)
+                        break;   // the call makes fewer than n allocations
+                    for (int fin = 0; fin < 14; ++fin)
+                    {
+                        auto desc = [&] { return fmt("h=%s;f=%d", hist.c_str(), fin); };
+                        if (!w.begin_case(desc))
+                            continue;
+                        HistState n2 = s;
+                        compareC10(w, n2, fin);
+                        w.add(mc::C_TRANS, 2);
+                        w.add(mc::C_TRACES, 1);
+                    }
+                    w.add(mc::C_STATES, 1);
+                }
             });
         }
         // histories long enough to bring the 16-bit frame counter to its wrap / sign boundary: every final then straddles it
